@@ -281,7 +281,7 @@ for (nm, fn, tier, tmo) in [('l6', 'ref_new_l6', 'quick', 3600), ('l7n', 'ref_ne
     ob('C04.case.' + nm, ['C04', 'C05', 'C13'], 'ska_ref/new', fn, tier=tier, functions=REFNEW, inst='u64', needs_parts=['ska_ref/common', 'split_kmer/common'], caps={'MCAP': 1, 'SCAP': 3, 'RCAP': 1, 'CCAP': 1},
        models=['needletail (in-memory records)', 'hashbrown', 'ndarray'], stubs=['core::str::from_utf8 -> unchecked (kani::stub)'], sym='one contig of %s bases in either case%s, strand mode' % (nm[1], ' with N' if 'n' in nm[2:] else ''),
        oracle='k-mer list = window specification with centres ascending and strand flags; stored reference is upper-case; contig name', bounds='k=5, ' + nm, timeout=tmo, mem_gb=20, mem_expect_gb=10)
-for (nm, fn) in [('5_1_6', 'ref_new_repeats_5_1_6'), ('6_0_6', 'ref_new_repeats_6_0_6')]:
+for (nm, fn) in [('5_1_5', 'ref_new_repeats_5_1_5'), ('5_1_6', 'ref_new_repeats_5_1_6'), ('6_0_6', 'ref_new_repeats_6_0_6')]:
     ob('C04.ref.' + nm, ['C04', 'C13'], 'ska_ref/new', fn, tier='thorough', functions=REFNEW, inst='u64', needs_parts=['ska_ref/common', 'split_kmer/common'], caps={'MCAP': 1, 'SCAP': 4, 'RCAP': 1, 'CCAP': 1},
        models=['needletail (in-memory records)', 'hashbrown', 'ndarray'], stubs=['core::str::from_utf8 -> unchecked (kani::stub)'], sym='three contigs (%s) of upper-case bases, single strand, repeat mask on' % nm,
        oracle='k-mer list = windows of every contig in order; repeat_coors = exactly the absolute positions within h of the centre of a split k-mer that occurs more than once', bounds='k=5, 12 bases', timeout=7200, mem_gb=28, mem_expect_gb=14)
